@@ -6,11 +6,13 @@
 import Driver.Session
 import Driver.Credit
 import Driver.RecvCredit
+import Driver.Frame
 
 structure DState where
   sess : Amqp.Session.St := Amqp.Session.init 0 0 0
   credit : Amqp.Credit.SSt := { dc := 0, lc := 0, initDc := 0, drain := false }
   recv : Amqp.RecvCredit.RSt := Amqp.RecvCredit.attached 0 .manual
+  frame : Nat × Amqp.Frame.DecSt := (512, Amqp.Frame.decInit)
 
 def handle (st : DState) (line : String) : DState × String :=
   match Driver.words line with
@@ -25,6 +27,10 @@ def handle (st : DState) (line : String) : DState × String :=
   | "R" :: ws =>
     match Driver.RecvCredit.step st.recv ws with
     | some (s, out) => ({ st with recv := s }, out)
+    | none => (st, "bad-op")
+  | "F" :: ws =>
+    match Driver.Frame.step st.frame ws with
+    | some (s, out) => ({ st with frame := s }, out)
     | none => (st, "bad-op")
   | "W" :: ws => (st, (Driver.Credit.wait ws).getD "bad-op")
   | _ => (st, "bad-op")
